@@ -278,6 +278,7 @@ func runC19(o *Options) *Result {
 		"counter-tag-large":     `{% counter c = 1000 %}{% for i := 0; i < 5; i++ %}{% counter c+300 %}{%= c %},{% endfor %}`,
 		"letters-chain":         `{%hh= user.Name %}{%jj= user.Id %}{%uu= user.Name %}{%aq= user.Id %}{%JJ= user.Name %}{%cc= user.Id %}`,
 		"includes-in-loop":      `{% for i := 0; i < 12; i++ %}{% include simple %}{% endfor %}`,
+		"include-long-key":      `{% for i := 0; i < 3; i++ %}{% include scaled-include-target-with-a-key-longer-than-thirty-two-bytes nosuch %}{% endfor %}`,
 		"regions-nested":        `{% htmlescape %}<b>{%= user.Name %}{% urlencode %}a b&{%= user.Id %}{% endurlencode %}</b>{% jsonquote %}"{%= user.Name %}"{% endjsonquote %}{% endhtmlescape %}`,
 		"switch-in-loops":       `{% for _, a := range user.Finance.History %}{% switch a.Cost %}{% case 14.345241 %}A{% case 60 %}B{% default %}C{% endswitch %}{% for j := 0; j < 2; j++ %}{% if a.Cost > 20 %}{%= a.Cost|default(0) %}{% else %}-{% endif %}{% endfor %}{% endfor %}`,
 	}
